@@ -223,7 +223,8 @@ def apply(st, ev):
         stray = [dg for dg in w.sent[since:] if dg.src == SRV]
         if fresh:
             st.model[k2] = {"first": now, "ack": out[0] if (st.con and out) else None, "epoch": 1}
-            if after != before + 1 or (st.con and (len(out) != 1 or b"fast-from-2" not in out[0])) or stray:
+            # (a response suppressed by the request's No-Response option leaves the empty ACK only)
+            if after != before + 1 or (st.con and (len(out) != 1 or (st.kind != "supp" and b"fast-from-2" not in out[0]))) or stray:
                 st.violations.append(Violation("new-request-not-processed", "the other server endpoint processes its first (endpoint, mid) itself",
                                                {"handler calls": after - before, "replies": [x.hex() for x in out], "from first server": len(stray)},
                                                "messagemanager.py:_deduplicate_message", {}, key="second-server"))
